@@ -689,8 +689,9 @@ class C08(Cfg):
     tie = ["Consts", "Facts_rstring", "Facts_rkey", "Facts_rlist", "Facts_rset", "Facts_rhash", "Facts_rzset"]
     facts = [r"^wrappers\.", r"^consts\.(setNumConns|rwMaxOpenConns|dataSource|execTx|applySettings)"]
     listed = {"D15"}
-    rule = ("rounds of 2..5 goroutines sharing one handle, 2..4 operations each on 1..3 keys (increments, gets, sets, list push/pop/rotate, set "
-            "add/move/pop, hash increments) with random start offsets; the Lean driver searches for a sequential order of whole operations that "
+    rule = ("rounds of 2..5 goroutines sharing one handle, 2..4 items each on 1..3 keys (increments, gets, sets, list push/pop/rotate, set "
+            "add/move/pop, hash increments; one item in three is a user transaction of 2..3 operations, DB.Update or read-only DB.View, judged as one "
+            "event) with random start offsets; the Lean driver searches for a sequential order of whole operations that "
             "respects the recorded call/return instants and explains every result and the final tables (Wing-Gong on the model); plus conservation "
             "runs of 160..320 concurrent increments, pops from both ends and moves; on-disk WAL, in-memory VFS and shared-cache :memory: "
             "configurations; and the same search over histories of 2..5 client connections of the real server binary (unix socket, on-disk database) "
